@@ -191,6 +191,48 @@ def run(ctx):
                 else:
                     r.ok(key, "skip ⇒ send unreachable", fn=par)
 
+    with ctx.rule("C06.ARGS", "both walkers feed each skip predicate the same things (entry path, entry metadata, limits)",
+                  floor=4, kind="PARITY/FLOW") as r:
+        def sig(f, owner, c):
+            """argument signature: per argument, the set of ignore-crate / std::fs calls and option fields it derives from"""
+            eb = ExprBuilder(f)
+            out = []
+            for a in c.args:
+                e = eb.operand(a)
+                s_ = set()
+                for x in walk(e):
+                    if x.k == "call" and (x[1].startswith("ignore::") or x[1].startswith("std::fs::") or x[1].startswith("std::path::")):
+                        s_.add(x[1])
+                    if x.k == "field" and x[2] == owner:
+                        s_.add("self." + x[3])
+                    if x.k == "arg":
+                        s_.add("arg:" + f.local_ty(x[1]).replace("walk::", ""))
+                out.append(frozenset(s_))
+            return out
+        ps = pred_calls(ser, W + "::Walk")
+        pp = pred_calls(par, W + "::Worker")
+        for p in ("ignore", "stdout", "filesize", "filter"):
+            if not ps[p] or not pp[p]:
+                r.bad(p, "anchor-missing: %s predicate call in one of the walkers" % p)
+                continue
+            a = sig(ser, W + "::Walk", ps[p][0][0])
+            b = sig(par, W + "::Worker", pp[p][0][0])
+            # the entry itself is an argument in the serial walker and a local in the parallel one; compare the
+            # calls/fields each argument is computed from
+            na = [frozenset(x for x in s_ if not x.startswith("arg:")) for s_ in a]
+            nb = [frozenset(x for x in s_ if not x.startswith("arg:")) for s_ in b]
+            # normalise receiver construction noise of the parallel walker (DirEntry built from the raw entry)
+            drop = {"self.ig", "ignore::walk::DirEntry::new_raw", "ignore::walk::DirEntryRaw::from_entry", "ignore::walk::DirEntryRaw::from_path",
+                    "ignore::walk::DirEntry::file_type", "ignore::walk::DirEntry::path", "std::path::Path::to_path_buf"}
+            na = [frozenset(x for x in s_ if x not in drop or x == "ignore::walk::DirEntry::path" and False) for s_ in na]
+            nb = [frozenset(x for x in s_ if x not in drop) for s_ in nb]
+            if na == nb:
+                r.ok(p, "same argument sources in both walkers: %s" % [sorted(x) for x in na], fn=par)
+            else:
+                diff = [(sorted(x), sorted(y)) for x, y in zip(na, nb) if x != y]
+                r.bad(p, "the %s predicate is fed differently: serial %s vs parallel %s (e.g. metadata of the link instead of "
+                      "its target)" % (p, diff[0][0] if diff else na, diff[0][1] if diff else nb), fn=par, loc=pp[p][0][0].loc, construct=p)
+
     with ctx.rule("C06.ROOTS", "depth-0 entries bypass every predicate in both walkers", floor=2, kind="DOM/NOCALL") as r:
         rs = root_switch(ser)
         if rs is None:
